@@ -41,6 +41,9 @@ CONSTANTS MaxClock,    \* the abstract clock runs 1..MaxClock
                        \*           status files are only written) if the flags are still ALL_READY inside the actor
                        \*  "zero" : a finished tick of 0 (not finished) never satisfies a query
                        \*  "tmp"  : every writer of status.tag uses its own temp file
+                       \*  "v-refused-finishes" is not a repair but a design *variant* that TLC must reject
+                       \*           (mc/Provision_variant_l.cfg): a poll that got no answer makes the waiting client
+                       \*           return 'finished'
                        \* (the repository now contains all three: the mc/ and gen/ProvisionGen.cfg configurations use
                        \*  Fix = {"stale", "zero", "tmp"}; the gen/ProvisionGen_cex*.cfg keep Fix = {} and serve as
                        \*  regression schedules: the interleavings that broke the statement before the repairs)
@@ -69,7 +72,7 @@ view  == <<flags, fin, clock, latch, wpc, wloc, kkLeft, rdLeft, latchLeft, qs, t
            reported, everAllReady, timeupFired, allReadyAt, timeupAt, owed, written>>
 
 QIdle == [pc |-> "idle", q |-> 0, tick |-> 0, fl |-> {}, rep |-> {}, names |-> {}, lat |-> FALSE,
-          finished |-> FALSE, owed0 |-> 0, ev |-> 0, tu |-> 0, inR0 |-> FALSE, polls |-> 0]
+          finished |-> FALSE, owed0 |-> 0, ev |-> 0, tu |-> 0, inR0 |-> FALSE, polls |-> 0, ans |-> TRUE]
 LocIdle == [op |-> "-", farg |-> FALSE, msg |-> {}]
 
 Init == /\ flags = {} /\ fin = 0 /\ clock = 1 /\ latch = FALSE
@@ -255,6 +258,26 @@ WPoll(i) ==     \* next poll: get_provision_finished again, same instant
   /\ UNCH_FILES /\ UNCH_ENV
   /\ UNCHANGED <<flags, fin, wpc, wloc, kkLeft, rdLeft, reported, everAllReady, timeupFired, allReadyAt,
                  timeupAt, owed>>
+\* A poll that gets no answer: the listener is not reachable (service not yet listening -- boot race, AddrInUse retry,
+\* restart -- connection refused) for the first polls of a waiting query, or for all of them.  The client counts it as
+\* "not finished"; a query none of whose polls was answered returns "not finished".
+RefusedAnswer == "v-refused-finishes" \in Fix
+QRefused(i) ==  \* the first poll of a query is refused (no listener needed)
+  /\ qs[i].pc = "idle"
+  /\ \E kind \in QKinds : \E q \in QTick(kind) :
+       /\ qs' = [qs EXCEPT ![i] = [QIdle EXCEPT !.pc = "done", !.q = q, !.polls = 1, !.ans = FALSE, !.finished = RefusedAnswer,
+                                                  !.fl = flags, !.rep = reported, !.names = All \ flags]]
+       /\ last' = [t |-> "q", i |-> i, a |-> "qrefused", x |-> kind]
+  /\ UNCH_FILES /\ UNCH_ENV
+  /\ UNCHANGED <<flags, fin, wpc, wloc, kkLeft, rdLeft, reported, everAllReady, timeupFired, allReadyAt,
+                 timeupAt, owed>>
+WRefused(i) ==  \* a later poll is refused: the client keeps (variant: spoils) what it has
+  /\ qs[i].pc = "done" /\ ~qs[i].finished /\ qs[i].polls < MaxPolls
+  /\ qs' = [qs EXCEPT ![i].polls = qs[i].polls + 1, ![i].ans = FALSE, ![i].owed0 = 0, ![i].finished = RefusedAnswer]
+  /\ last' = [t |-> "q", i |-> i, a |-> "wrefused", x |-> "-"]
+  /\ UNCH_FILES /\ UNCH_ENV
+  /\ UNCHANGED <<flags, fin, wpc, wloc, kkLeft, rdLeft, reported, everAllReady, timeupFired, allReadyAt,
+                 timeupAt, owed>>
 QState(i) ==    \* get_state inside get_provision_failed_state_message
   /\ qs[i].pc = "qstate"
   /\ qs' = [qs EXCEPT ![i].pc = "qchan", ![i].fl = flags, ![i].rep = reported, ![i].names = All \ flags,
@@ -275,7 +298,7 @@ QChan(i) ==     \* get_current_secure_channel_state; finished := tick >= q || la
 Next == \/ Tick \/ SetLatch
         \/ \E w \in Writers : \/ Upd(w) \/ Reset(w) \/ TState(w) \/ SetFin(w) \/ WState(w)
                               \/ WOpen(w) \/ WWrite(w) \/ WRename(w)
-        \/ \E i \in 1..NQ : QFin(i) \/ WPoll(i) \/ QState(i) \/ QChan(i)
+        \/ \E i \in 1..NQ : QFin(i) \/ WPoll(i) \/ QRefused(i) \/ WRefused(i) \/ QState(i) \/ QChan(i)
 Spec == Init /\ [][Next]_vars
 
 -----------------------------------------------------------------------------
@@ -289,7 +312,7 @@ FinishedOnlyAfter == fin # 0 => everAllReady \/ timeupFired
 Answer == \A i \in 1..NQ : qs[i].pc = "done" => (qs[i].finished <=> Reported(qs[i].tick, qs[i].q, qs[i].lat))
 \* the subsystems named are exactly those not ready at the linearization point of get_state, and the flags
 \* read there are what the subsystems last reported (no lost update)
-ErrorTextExact == \A i \in 1..NQ : qs[i].pc \in {"qchan", "done"} =>
+ErrorTextExact == \A i \in 1..NQ : qs[i].pc \in {"qchan", "done"} /\ qs[i].ans =>
                      /\ qs[i].names = All \ qs[i].fl
                      /\ qs[i].fl = qs[i].rep
 NoLostUpdate == flags = reported
